@@ -44,6 +44,7 @@ type GenOpts struct {
 	NoEmptySet  bool
 	ASCII       bool // strings from a small ASCII pool only
 	AllowEmptyB bool // empty binary (valid in non-key positions)
+	NoEmptyLM   bool // no empty lists/maps (the SDK v2 adapter returns them as NULL: a listed finding of C10)
 }
 
 var strPool = []string{"", "a", "b", "ab", "abc", "x", "hello", "A", "a b", "1", "é", "日本", "z\x00z", "a.b", "#x", ":v"}
@@ -97,6 +98,9 @@ func ValueOfKind(r *rand.Rand, k val.Kind, depth int, o GenOpts) val.V {
 	switch k {
 	case val.KL:
 		n := r.Intn(4)
+		if o.NoEmptyLM && n == 0 {
+			n = 1
+		}
 		out := val.V{K: val.KL, L: []val.V{}}
 		for i := 0; i < n; i++ {
 			d := depth - 1
@@ -112,6 +116,9 @@ func ValueOfKind(r *rand.Rand, k val.Kind, depth int, o GenOpts) val.V {
 		return out
 	case val.KM:
 		n := r.Intn(4)
+		if o.NoEmptyLM && n == 0 {
+			n = 1
+		}
 		out := val.V{K: val.KM, M: map[string]val.V{}}
 		for i := 0; i < n; i++ {
 			name := Pick(r, []string{"x", "y", "z", "k", "size", "a.b", "n"})
